@@ -41,7 +41,13 @@ SmallMsgs ==
                                 (* string values outside the Unicode normal forms: *)
                                 (* "e" + U+0301 (not NFC), U+212B, U+0340 (in none) *)
                                 << << 11, << 101, 204, 129 >> >>, << 15, << 226, 132, 171 >> >> >>,
-                                << << 3, << 205, 128 >> >>, << 35, << 195, 169 >> >> >> },
+                                << << 3, << 205, 128 >> >>, << 35, << 195, 169 >> >> >>,
+                                (* values with a meaning outside section 3: Max-Age *)
+                                (* default 60 and Uri-Port 5683; Location-Path ".." *)
+                                (* and Uri-Path "%41"; Uri-Query with a bare LF     *)
+                                << << 7, << 22, 51 >> >>, << 14, << 60 >> >> >>,
+                                << << 8, << 46, 46 >> >>, << 11, << 37, 52, 49 >> >> >>,
+                                << << 15, << 97, 10, 98 >> >> >> },
                       pay \in { << >>, << 0 >>, << 255, 255 >> } }) : Representable(m) }
 
 (* bytes offered in the current automaton state                              *)
